@@ -49,6 +49,25 @@ theorem number_spellings (op : CmpOp) (n : Int) (x : Data) (hx : x.cmpShape) :
   simp only [dataVal] at k1 k2 k3 k4 ⊢
   cases op <;> simp [Spec.cmp, k1, k2, k3, k4]
 
+/-- `?expr` = `?(expr)` and redundant parentheses: a parenthesised sub-expression evaluates, for the child under test, to the same
+truth value as the expression itself (no well-formedness hypothesis needed) -/
+theorem redundant_parentheses (E : Engine) (root : Json) (e : Filter) (p : Ptr) (hp : p.path = []) :
+    boolOf ((Filter.atom (.filter e false)).elem E root (.ref p)) = boolOf (e.elem E root (.ref p)) := by
+  simp only [Filter.elem, FilterAtom.process, cond_false, filterProcessWith_internal _ p hp]
+  cases boolOf (e.elem E root (.ref p)) <;> rfl
+
+/-- `!(!(expr))` = `expr` -/
+theorem double_negation (E : Engine) (root : Json) (e : Filter) (p : Ptr) (hp : p.path = []) :
+    boolOf ((Filter.atom (.filter (.atom (.filter e true)) true)).elem E root (.ref p)) = boolOf (e.elem E root (.ref p)) := by
+  simp only [Filter.elem, FilterAtom.process, cond_true, filterProcessWith_internal _ p hp]
+  cases boolOf (e.elem E root (.ref p)) <;> rfl
+
+/-- the same two laws on the RFC side -/
+theorem spec_parentheses (E : Engine) (root : Json) (n : Spec.Node) (e : Filter) :
+    Spec.logical E root n (.atom (.filter e false)) = Spec.logical E root n e ∧
+    Spec.logical E root n (.atom (.filter (.atom (.filter e true)) true)) = Spec.logical E root n e := by
+  simp [Spec.logical, Spec.atom]
+
 /-- `1e2` = `100`: the parser's exact decimal value of a float spelling -/
 example : parseF64 "1e2".toList = some (100, 1) ∧ parseF64 "100.0".toList = some (1000, 10) ∧
     Spec.numEq (.flt 100 1) (.int 100) = true ∧ Spec.numEq (.flt 1000 10) (.int 100) = true := by decide
